@@ -11,10 +11,22 @@ cp /repo/go.sum ./go.sum 2>/dev/null || true
 mkdir -p bin evidence replays
 BIN=bin/vcheck
 if [ "$ID" = "C18" ]; then
+  # C18: race-detector build against a scratch copy of /repo's working tree into which
+  # tools/genglobals writes digest functions over all package-level variables.
   BIN=bin/vcheck-race
-  if ! go build -race -tags verif -o $BIN ./cmd/vcheck 2>bin/build.err; then
-    cat bin/build.err; echo "HARNESS-ERROR property=$ID build failed (library does not compile with -tags verif?)"; exit 2
+  SCR="$PWD/.scratch/c18-repo"
+  mkdir -p "$PWD/.scratch"
+  rm -rf "$SCR"
+  rsync -a --exclude .git --exclude test-data /repo/ "$SCR/"
+  if ! go run ./tools/genglobals "$SCR" >bin/genglobals.out 2>&1; then
+    cat bin/genglobals.out; echo "HARNESS-ERROR property=$ID genglobals failed"; exit 2
   fi
+  sed "s#=> /repo#=> $SCR#" go.mod > .scratch/c18.mod
+  cp go.sum .scratch/c18.sum
+  if ! go build -race -tags "verif verifglobals" -modfile=.scratch/c18.mod -o $BIN ./cmd/vcheck 2>bin/build.err; then
+    cat bin/build.err; echo "HARNESS-ERROR property=$ID build failed (library does not compile?)"; exit 2
+  fi
+  rm -rf "$SCR"
 else
   if ! go build -tags verif -o $BIN ./cmd/vcheck 2>bin/build.err; then
     cat bin/build.err; echo "HARNESS-ERROR property=$ID build failed (library does not compile with -tags verif?)"; exit 2
